@@ -5,7 +5,7 @@ Everything not listed here and not in the workspace is an opaque *effect*.
 """
 import re
 from mireval import (TRUE, FALSE, UNIT, Unsupported, Infeasible, mk_int, wrap, len_term, index_term,
-                     term_type, adt_base, is_bool_term)
+                     term_type, adt_base, is_bool_term, fmt_term)
 
 OPTION = "core::option::Option"
 RESULT = "core::result::Result"
@@ -1045,6 +1045,11 @@ def m_iter_next(ci):
         ch = ("item", inner, site)
         ln = ("len", ("proj", ch, ("deref",)))
         extra = [(("app", "Le", (ln, inner[3])), 1), (("app", "Ge", (ln, mk_int(1, "usize"))), 1)]
+    # closures inside the iterator value that nothing above has run (map, filter, take_while, scan, ...; the generic item of
+    # `map(f)` stands for f's result without running f): if one has effects, the generic item would hide them
+    left = ev.effectful_fn_values(ci.st, ("tuple", (it[2], src)) if (it[0] == "iter" and it[1] == "flat_map") else it)
+    if left:
+        raise Unsupported("iteration over %s: its closure %s has effects (%s) that the generic-item model does not run" % (fmt_term(it)[:60], left[0][0].split("::", 1)[-1], left[0][1]))
     d = ("app", "has_next", (it, mk_int(n, "usize")))
     ci.st.aux["next_count"] = n + 1
     facts = [(d, 1)] + extra
